@@ -340,6 +340,50 @@ def run(ctx):
                               "read_triaxys on files with different frequency counts: %s" % probs[0][:300], {"seed": seed, "cut": cut})
             else:
                 ctx.replayed()
+        # ---- ... and TRIAXYS files with the SAME number of frequencies and the same spacing whose later files start k spacings higher:
+        # on the first file's grid a later record holds its own densities at the frequencies both grids share and nothing elsewhere
+        for i in range(6 if ctx.quick else 60):
+            seed = "triaxys-f0-%d-%d" % (ctx.seed, i)
+            crng = random.Random(seed)
+            case = I.random_case("triaxys", crng, ntimes=3, nfreq=crng.choice((4, 5, 6)), shuffle=False, toff=0)
+            case["names"] = "time"
+            nf0 = len(case["freq"])
+            shift = [0, crng.randint(1, nf0 - 2), crng.randint(0, 2)]
+            case["shift_per_time"] = shift
+            d6 = os.path.join(tmp, "tf0%d" % i)
+            os.makedirs(d6)
+            ctx.case(("triaxys-later-initial-frequency", seed), True)
+            try:
+                arg = I.encode(case, d6)
+                ds = I.read(arg, case).load().sortby("time")
+                exp = I.expected(case)
+                base = np.asarray(exp["efth"] if "efth" in exp else exp["ef"], float)
+                want = np.zeros_like(base)
+                order = np.argsort(np.array(case["times"]).astype("datetime64[s]").astype("int64"), kind="stable")
+                for pos, it in enumerate(order):
+                    k = shift[it]
+                    want[pos, k:] = base[pos, :nf0 - k] if k else base[pos]
+                got = np.asarray(ds.efth.transpose("time", "freq", ...).values, float)
+                probs = []
+                if got.shape != want.shape or not np.allclose(np.asarray(ds.freq.values, float), np.asarray(case["freq"], float), rtol=1e-9):
+                    probs.append("shape %s / frequencies %s, expected the first file's grid %s" % (got.shape, ds.freq.values, case["freq"]))
+                else:
+                    # the lowest shared node is a floating-point boundary (f0 + k*df of the first grid against the later file's own
+                    # printed f0: equal in decimals, possibly one ulp apart in doubles): there the record may hold its value or nothing
+                    for pos, it in enumerate(order):
+                        if shift[it] and np.allclose(got[pos, shift[it]], 0.0):
+                            want[pos, shift[it]] = 0.0
+                if not probs and not np.allclose(got, want, rtol=1e-6, atol=1e-12):
+                    k = np.unravel_index(np.argmax(np.abs(got - want)), got.shape)
+                    probs.append("efth at (time %d, freq index %d) is %.6g, the file says %.6g (files start %s spacings above the first)" % (k[0], k[1], got[k], want[k], shift))
+            except Exception as ex:  # noqa
+                probs = ["reader raised %s: %s" % (type(ex).__name__, str(ex)[:150])]
+            shutil.rmtree(d6, ignore_errors=True)
+            if probs:
+                ctx.violation({"format": "triaxys", "variant": "later-initial-frequency-in-later-files", "clause": "efth"},
+                              "read_triaxys on files with the same frequency count but different initial frequencies: %s" % probs[0][:300], {"seed": seed, "shift": shift})
+            else:
+                ctx.replayed()
         # ---- the SWAN ASCII file as a writer/reader protocol (SwanFile.tla): model-checked, replayed into the real writer and
         # reader, and every recorded read validated by SwanFileTrace.tla
         from harness import swanfile_ext
